@@ -27,7 +27,7 @@ class RaisingThread(Thread):
         """
         try:
             super().run()
-        except Exception as e:
+        except BaseException as e:
             self._exception = e
 
     def join(self, timeout=None) -> None:
